@@ -163,6 +163,26 @@ Theorem sort_dictionary_sorted_perm :
 Proof. exact sort_dictionary_check. Qed.
 Print Assumptions sort_dictionary_sorted_perm.
 
+(* sort_list / sort_list_view / sort_fixed_size_list: every valid list carries the slice of its elements' child ranks and
+   slices are compared like &[u32] (lexicographically, then by length); for lists whose elements are slots of the child
+   array the output passes the predicate for the list comparator (elements under child_opts, nulls inside lists included) *)
+Theorem sort_list_sorted_perm :
+  forall (so : (nat * list nat -> nat * list nat -> comparison) -> list (nat * list nat) -> list (nat * list nat))
+         (se : (nat * list nat -> nat * list nat -> comparison) -> nat -> list (nat * list nat) -> list (nat * list nat)),
+  (forall c l, tpo c -> Permutation (so c l) l /\ sortedb c (so c l) = true) ->
+  (forall c n l, tpo c -> n < length l ->
+     Permutation (se c n l) l /\
+     exists p, nth_error (se c n l) n = Some p /\
+       Forall (fun x => c x p <> Gt) (firstn n (se c n l)) /\
+       Forall (fun y => c p y <> Gt) (skipn (S n) (se c n l))) ->
+  (forall c1 c2 l, (forall x y, In x l -> In y l -> c1 x y = c2 x y) -> so c1 l = so c2 l) ->
+  (forall c1 c2 n l, (forall x y, In x l -> In y l -> c1 x y = c2 x y) -> se c1 n l = se c2 n l) ->
+  forall (child a : list oval) (nf desc : bool) (limit : option nat),
+  (forall i u, slot a i = Some u -> exists l, u = VList l /\ forall o, In o l -> In o child) ->
+  sort_check (cmp_opts nf desc) a limit (sort_list so se child a nf desc limit) = 1%Z.
+Proof. exact sort_list_check. Qed.
+Print Assumptions sort_list_sorted_perm.
+
 (* the contracts are satisfiable: insertion sort (the instance run by the extracted model) meets all four *)
 Theorem sort_oracle_instance : forall T : Type,
   (forall (c : T -> T -> comparison) l, tpo c -> Permutation (isort c l) l /\ sortedb c (isort c l) = true) /\
